@@ -1,3 +1,244 @@
 import Ptk.Proto
--- stub: the C15 model driver has not been written yet
-def main : IO Unit := Ptk.Proto.run fun _ => "bad-op"
+import Ptk.Model.C15
+import Std.Data.HashSet
+open Ptk Ptk.Py Ptk.Proto Ptk.C15
+
+/-
+  Line protocol driver for the C15 model.
+
+  init <cwt> <hasV> <vwt> <hasS> <maxN> <fixD1> <va> <vp> <vr> <sa> <sp> <sr> <slit>
+       <text> <cur> <ncomp> (<back> <echo> <lit>)*
+  ins s: | delb n | del n | cur v | text s: | next c dw | prev c dw | cancel | startc m | tab
+  apply s: start | vsync | reset s: c
+  start k        -- first step of the k-th pending task (creation order)
+  rel c|v|s      -- resume the (first) task waiting in the completer / validator / suggester
+  drain          -- start pending tasks in creation order until none is pending
+  nrel c|v|s     -- what a real asyncio loop does on a wake-up: drain, resume, drain
+
+  enum <depth> <maxstates> <op>*   -- breadth-first exploration of the model from the
+       current state over the given action alphabet (`_` for blanks inside an op); prints
+       one line "paths <n> | a;b;c | ..." (input generation for the harness).
+-/
+
+structure DState where
+  cfg : Config
+  env : Env
+  s : St
+
+def encOptText : Option Text → String
+  | none => "N"
+  | some t => encStr t
+
+def encMode : Mode → String
+  | .plain => "0" | .first => "1" | .last => "2" | .common => "3"
+
+def decMode (t : String) : Option Mode :=
+  match t with
+  | "0" => some .plain | "1" => some .first | "2" => some .last | "3" => some .common
+  | _ => none
+
+def encCs : Option CState → String
+  | none => "N"
+  | some st =>
+    let idx := match st.index with | none => "N" | some i => toString i
+    "C " ++ encStr st.orig.text ++ " " ++ toString st.orig.cur ++ " " ++ idx ++ " " ++
+      encList (fun c => encStr c.text ++ " " ++ toString c.start) st.comps
+
+def encVs : VState → String
+  | .unknown => "U" | .valid => "V" | .invalid => "I"
+
+def isPending : Task → Bool
+  | .cPend _ | .vPend | .sPend => true
+  | _ => false
+
+def kindOf : Task → Char
+  | .cPend _ | .cLoad .. => 'c'
+  | .vPend | .vWait _ => 'v'
+  | .sPend | .sWait _ => 's'
+
+def encPending (ts : List Task) : String :=
+  let l := ts.filterMap fun
+    | .cPend m => some ("c" ++ encMode m)
+    | .vPend => some "v"
+    | .sPend => some "s"
+    | _ => none
+  if l.isEmpty then "-" else ",".intercalate l
+
+def encWaiting (ts : List Task) : String :=
+  let c := ts.filterMap fun
+    | .cLoad _ d i _ => some s!"c:{encStr d.text}:{d.cur}:{i}"
+    | _ => none
+  let v := ts.filterMap fun
+    | .vWait d => some s!"v:{encStr d.text}:{d.cur}"
+    | _ => none
+  let s := ts.filterMap fun
+    | .sWait d => some s!"s:{encStr d.text}:{d.cur}"
+    | _ => none
+  let l := c ++ v ++ s
+  if l.isEmpty then "-" else ",".intercalate l
+
+def encState (e : Bool) (s : St) : String :=
+  (if e then "err" else "ok") ++ " " ++ encStr s.text ++ " " ++ toString s.cur ++ " " ++
+  encCs s.cs ++ " " ++ encVs s.vs ++ " " ++ encOptText s.verr ++ " " ++ encOptText s.sugg ++ " " ++
+  encBool s.runC ++ encBool s.runV ++ encBool s.runS ++ " " ++
+  encPending s.tasks ++ " " ++ encWaiting s.tasks
+
+/-- index in the task list of the k-th pending task -/
+def nthPending (ts : List Task) (k : Nat) : Option Nat :=
+  let idxs := (List.range ts.length).filter fun i =>
+    match ts[i]? with | some t => isPending t | none => false
+  idxs[k]?
+
+def firstWaiting (ts : List Task) (kind : Char) : Option Nat :=
+  (List.range ts.length).find? fun i =>
+    match ts[i]? with | some t => !isPending t && kindOf t == kind | none => false
+
+def drain (s : St) : Nat → St
+  | 0 => s
+  | fuel + 1 =>
+    match nthPending s.tasks 0 with
+    | some i => drain (startTask s i) fuel
+    | none => s
+
+def release (cfg : Config) (env : Env) (s : St) (kind : Char) : St :=
+  match firstWaiting s.tasks kind with
+  | some i => resumeTask cfg env s i
+  | none => s
+
+def parseComps : Nat → List String → Option (List CompSpec)
+  | 0, [] => some []
+  | n + 1, b :: e :: l :: rest => do
+    let b ← decNat b
+    let e ← decBool e
+    let l ← decStr l
+    let r ← parseComps n rest
+    pure (⟨b, e, l⟩ :: r)
+  | _, _ => none
+
+def parseInit : List String → Option DState
+  | cwt :: hasV :: vwt :: hasS :: maxN :: fix :: va :: vp :: vr :: sa :: sp :: sr :: slit ::
+    text :: cur :: nc :: rest => do
+    let cfg : Config := ⟨← decBool cwt, ← decBool hasV, ← decBool vwt, ← decBool hasS,
+                         ← decNat maxN, ← decBool fix⟩
+    let va ← decNat va
+    let vp ← decNat vp
+    let vr ← decNat vr
+    let sa ← decNat sa
+    let sp ← decNat sp
+    let sr ← decNat sr
+    let slit ← decStr slit
+    let text ← decStr text
+    let cur ← decNat cur
+    let nc ← decNat nc
+    let spec ← parseComps nc rest
+    let env : Env := ⟨mkComp spec, mkValid va vp vr, mkSugg sa sp sr slit⟩
+    pure ⟨cfg, env, init ⟨text, min cur text.length⟩⟩
+  | _ => none
+
+/-- a user/scheduler operation of the protocol -/
+def applyOp (d : DState) : List String → Option (St × Bool)
+  | ["ins", t] => do pure (step d.cfg d.env d.s (.insert (← decStr t)))
+  | ["delb", n] => do pure (step d.cfg d.env d.s (.deleteBefore (← decNat n)))
+  | ["del", n] => do pure (step d.cfg d.env d.s (.delete (← decNat n)))
+  | ["cur", v] => do pure (step d.cfg d.env d.s (.setCursor (← decInt v)))
+  | ["text", t] => do pure (step d.cfg d.env d.s (.setText (← decStr t)))
+  | ["next", c, dw] => do pure (step d.cfg d.env d.s (.next (← decNat c) (← decBool dw)))
+  | ["prev", c, dw] => do pure (step d.cfg d.env d.s (.prev (← decNat c) (← decBool dw)))
+  | ["cancel"] => some (step d.cfg d.env d.s .cancel)
+  | ["startc", m] => do pure (step d.cfg d.env d.s (.startCompletion (← decMode m)))
+  | ["tab"] => some (step d.cfg d.env d.s .tab)
+  | ["apply", t, st] => do pure (step d.cfg d.env d.s (.apply ⟨← decStr t, ← decInt st⟩))
+  | ["vsync"] => some (step d.cfg d.env d.s .validateSync)
+  | ["reset", t, c] => do pure (step d.cfg d.env d.s (.reset (← decStr t) (← decNat c)))
+  | ["start", k] => do
+    let k ← decNat k
+    match nthPending d.s.tasks k with
+    | some i => pure (step d.cfg d.env d.s (.start i))
+    | none => pure (d.s, false)
+  | ["rel", k] =>
+    match k.toList with
+    | [c] =>
+      match firstWaiting d.s.tasks c with
+      | some i => some (step d.cfg d.env d.s (.resume i))
+      | none => some (d.s, false)
+    | _ => none
+  | ["drain"] => some (drain d.s (d.s.tasks.length + 8), false)
+  | ["nrel", k] =>
+    match k.toList with
+    | [c] =>
+      let s1 := drain d.s (d.s.tasks.length + 8)
+      let s2 := release d.cfg d.env s1 c
+      some (drain s2 (s2.tasks.length + 8), false)
+    | _ => none
+  | _ => none
+
+/-! ### breadth-first enumeration of schedules (input generation for the harness) -/
+
+/-- `cur -1` / `cur +1` are relative moves in the enumeration alphabet; `_` stands for a
+    blank inside one alphabet entry -/
+def enumOpText (d : DState) (op : String) : String :=
+  if op == "cur_-1" then "cur " ++ toString ((d.s.cur : Int) - 1)
+  else if op == "cur_+1" then "cur " ++ toString ((d.s.cur : Int) + 1)
+  else op.replace "_" " "
+
+def enumOp (d : DState) (op : String) : Option (St × Bool) :=
+  applyOp d ((enumOpText d op).splitOn " ")
+
+def stateKey (e : Bool) (s : St) : String :=
+  let linked := s.tasks.filterMap fun
+    | .cLoad _ _ _ tok => some (match s.cs with | some st => encBool (st.token == tok) | none => "n")
+    | _ => none
+  encState e s ++ " " ++ "".intercalate linked
+
+/-- Breadth-first exploration to `depth` over `alphabet`, merging equal states.  Emits the
+    action path of every edge that is not a proper prefix of another emitted path: all edges
+    into already known states, and the tree edges into the last level.  Every transition
+    between explored states is therefore exercised by at least one emitted path. -/
+partial def bfs (d0 : DState) (depth maxStates : Nat) (alphabet : List String) : List String := Id.run do
+  let mut seen : Std.HashSet String := {}
+  seen := seen.insert (stateKey false d0.s)
+  let mut frontier : Array (St × List String) := #[(d0.s, [])]
+  let mut out : Array String := #[]
+  let mut n := 1
+  for lvl in [0:depth] do
+    let mut next : Array (St × List String) := #[]
+    for (s, path) in frontier do
+      let d : DState := { d0 with s := s }
+      for op in alphabet do
+        match enumOp d op with
+        | some (s', e) =>
+          let key := stateKey e s'
+          let p := enumOpText d op :: path
+          if seen.contains key || n ≥ maxStates then
+            out := out.push (";".intercalate p.reverse)
+          else
+            seen := seen.insert key
+            n := n + 1
+            next := next.push (s', p)
+            if lvl + 1 == depth then out := out.push (";".intercalate p.reverse)
+        | none => pure ()
+    frontier := next
+  return out.toList
+
+def stepLine (d : DState) (toks : List String) : DState × String :=
+  match toks with
+  | "init" :: rest =>
+    match parseInit rest with
+    | some d' => (d', encState false d'.s)
+    | none => (d, "bad-op")
+  | "enum" :: depth :: maxStates :: alphabet =>
+    match decNat depth, decNat maxStates with
+    | some k, some m =>
+      let paths := bfs d k m alphabet
+      (d, "paths " ++ toString paths.length ++ " | " ++ " | ".intercalate paths)
+    | _, _ => (d, "bad-op")
+  | _ =>
+    match applyOp d toks with
+    | some (s', e) => ({ d with s := s' }, encState e s')
+    | none => (d, "bad-op")
+
+def main : IO Unit :=
+  runS stepLine
+    { cfg := ⟨false, false, false, false, 10000, true⟩,
+      env := ⟨fun _ => [], fun _ => none, fun _ => none⟩,
+      s := init ⟨[], 0⟩ }
